@@ -136,6 +136,8 @@ class RollingDeployerDrv(_DeployBase):
     covers = ("RollingDeployer",)
     ops = ("request", "deploy")
     sick = False
+    batch = 1
+    max_failures = 1
 
     def build(self, cfg):
         self.fleet(cfg, n=2)
@@ -144,8 +146,8 @@ class RollingDeployerDrv(_DeployBase):
             def factory(name, _n=[0]):
                 _n[0] += 1
                 return _SickServer(name) if _n[0] == 2 else self.factory(name)
-        self.rd = RollingDeployer("rolling", load_balancer=self.lb, server_factory=factory, batch_size=1,
-                                  health_check_interval=P(0.5), healthy_threshold=2, max_failures=1)
+        self.rd = RollingDeployer("rolling", load_balancer=self.lb, server_factory=factory, batch_size=self.batch,
+                                  health_check_interval=P(0.5), healthy_threshold=2, max_failures=self.max_failures)
         return [*self.servers, self.lb, self.rd]
 
     def request(self, i, op):
@@ -159,6 +161,19 @@ class RollingDeployerDrv(_DeployBase):
 
 class RollingDeployerSickInstanceDrv(RollingDeployerDrv):
     sick = True
+
+
+class RollingDeployerBatchDrv(RollingDeployerDrv):
+    """batch of two replacement instances probed together (mini round 6: one instance reaches its threshold
+    while its batch peer has not answered yet)"""
+    batch = 2
+
+
+class RollingDeployerBatchSickPeerDrv(RollingDeployerDrv):
+    """... and the peer never answers, with a failure budget that outlasts the healthy instance's second pass"""
+    batch = 2
+    sick = True
+    max_failures = 3
 
 
 # ------------------------------------------------------------------------------------------ infrastructure
@@ -345,7 +360,8 @@ class TCPConnectionBBRDrv(_TCPDrv):
 
 
 DRIVERS = [AutoScalerTargetUtilDrv, AutoScalerStepDrv, AutoScalerQueueDepthDrv, CanaryDeployerErrorRateDrv,
-           CanaryDeployerLatencyDrv, CanaryDeployerConcurrentDeploysDrv, RollingDeployerDrv, RollingDeployerSickInstanceDrv, CPUSchedulerFairShareDrv,
+           CanaryDeployerLatencyDrv, CanaryDeployerConcurrentDeploysDrv, RollingDeployerDrv, RollingDeployerSickInstanceDrv, RollingDeployerBatchDrv,
+           RollingDeployerBatchSickPeerDrv, CPUSchedulerFairShareDrv,
            CPUSchedulerPriorityDrv, DiskIOHDDDrv, DiskIOSSDDrv, DiskIONVMeDrv, DNSResolverDrv,
            GarbageCollectorSTWDrv, GarbageCollectorConcurrentDrv, GarbageCollectorGenerationalDrv, PageCacheDrv,
            TCPConnectionAIMDDrv, TCPConnectionCubicDrv, TCPConnectionBBRDrv]
